@@ -217,9 +217,33 @@ def run(chk):
             for lo, hi in r:
                 ranges.append((lo, hi, minor, arm['l']))
         chk.floor('magic_ranges', len(ranges), 6)
+        pname = next((p_['n'] for p_ in (fn.get('params') or []) if p_.get('k') == 'Bind'), None)
+
+        def scrut(e, m):
+            # the value the match looks at for the magic number m (`magic_num`, `magic_num / 10`, ...)
+            e = T.peel(e)
+            if e.get('k') == 'Local':
+                return m if e['n'] == pname else None
+            v = T.lit_int(e)
+            if v is not None:
+                return v
+            if e.get('k') == 'Cast':
+                return scrut(e['x'], m)
+            if e.get('k') == 'Binary':
+                a, b = scrut(e['x'], m), scrut(e['y'], m)
+                if a is None or b is None:
+                    return None
+                try:
+                    return {'+': a + b, '-': a - b, '*': a * b, '/': a // b, '%': a % b, '>>': a >> b, '<<': a << b, '&': a & b, '|': a | b}.get(e['op'])
+                except ZeroDivisionError:
+                    return None
+            return None
+        seen_by = {v: scrut(ms[0]['x'], ref[v]['magic']) for v in ref}
+        chk.need(all(x is not None for x in seen_by.values()), 'get_ver_from_magic_num: the scrutinee `%s` of the match could not be evaluated' % T.show(ms[0]['x']))
         for ver in ['3.7', '3.8', '3.9', '3.10', '3.11', '3.12']:
             mg = ref[ver]['magic']
-            hit = [r for r in ranges if r[0] <= mg <= r[1]]
+            sv = seen_by.get(ver)
+            hit = [r for r in ranges if sv is not None and r[0] <= sv <= r[1]]
             want = int(ver.split('.')[1])
             if len(hit) == 1 and hit[0][2] == want:
                 chk.ok('C16-d', ('magic', ver), sample='magic %d -> 3.%d' % (mg, want))
@@ -227,7 +251,7 @@ def run(chk):
                 chk.bad('C16-d', 'get_ver_from_magic_num', 'magic@%s' % ver,
                         'magic number %d of CPython %s is mapped to %s' % (mg, ver, ['3.%d' % h[2] for h in hit] or 'nothing (panic)'), fn['_file'], fn['line'])
         for (lo, hi, minor, ln) in ranges:
-            others = [v for v in ref if lo <= ref[v]['magic'] <= hi and int(v.split('.')[1]) != minor]
+            others = [v for v in ref if seen_by.get(v) is not None and lo <= seen_by[v] <= hi and int(v.split('.')[1]) != minor]
             if others:
                 chk.bad('C16-d', 'get_ver_from_magic_num', 'range:3.%d' % minor,
                         'range %d..=%d for 3.%d also covers the magic number of %s' % (lo, hi, minor, others), fn['_file'], ln)
